@@ -379,8 +379,11 @@ func (s *scanner) directory(
 		contentPathPrefix = fastpath.Joinable(path)
 	}
 
-	// Compute the entries for the content map.
+	// Compute the entries for the content map. Content whose name is not valid
+	// UTF-8 is only collected here and recorded once all other content is known
+	// (see below).
 	contents := make(map[string]*Entry, len(directoryContents))
+	var nonUTF8ContentNames []string
 	for _, contentMetadata := range directoryContents {
 		// Check for cancellation.
 		select {
@@ -399,33 +402,10 @@ func (s *scanner) directory(
 			continue
 		}
 
-		// If the filename is not valid UTF-8, then flag it as either untracked
-		// or problematic content, depending on the ignore mask. The reason for
-		// this distinction is that all non-UTF-8-named content inherently falls
-		// under IgnoreStatusNominal (because the name couldn't possibly match
-		// any ignore (or unignore) specification). Moreover, we wouldn't want a
-		// non-UTF-8-named entry to be the sole trigger that reified a phantom
-		// directory into existence, and even if other content were to trigger a
-		// phantom directory into existence, we wouldn't care about the
-		// non-UTF-8-named entry because it would be ignore masked out.
-		//
-		// UTF-8 enforcement is important for both (a) ensuring that comparisons
-		// are performed using a common encoding and (b) allowing the name to be
-		// encoded with Protocol Buffers (which enforces that strings are UTF-8
-		// encoded when marshaling). Since the file name isn't valid for storing
-		// in the content map, we'll replace all unknown byte sequences with a
-		// replacement character and store the entry with a (hopefully)
-		// non-coliding derivative name.
+		// If the filename is not valid UTF-8, then defer its handling until
+		// all other content has been recorded.
 		if !utf8.ValidString(contentName) {
-			escapedContentName := strings.ToValidUTF8(contentName, "�") + " (non-UTF-8)"
-			if ignoreMask {
-				contents[escapedContentName] = &Entry{Kind: EntryKind_Untracked}
-			} else {
-				contents[escapedContentName] = &Entry{
-					Kind:    EntryKind_Problematic,
-					Problem: "non-UTF-8 filename",
-				}
-			}
+			nonUTF8ContentNames = append(nonUTF8ContentNames, contentName)
 			continue
 		}
 
@@ -616,6 +596,43 @@ func (s *scanner) directory(
 
 		// Record the content.
 		contents[contentName] = entry
+	}
+
+	// Record content whose name is not valid UTF-8, flagging it as either
+	// untracked or problematic content, depending on the ignore mask. The
+	// reason for this distinction is that all non-UTF-8-named content
+	// inherently falls under IgnoreStatusNominal (because the name couldn't
+	// possibly match any ignore (or unignore) specification). Moreover, we
+	// wouldn't want a non-UTF-8-named entry to be the sole trigger that reified
+	// a phantom directory into existence, and even if other content were to
+	// trigger a phantom directory into existence, we wouldn't care about the
+	// non-UTF-8-named entry because it would be ignore masked out.
+	//
+	// UTF-8 enforcement is important for both (a) ensuring that comparisons are
+	// performed using a common encoding and (b) allowing the name to be encoded
+	// with Protocol Buffers (which enforces that strings are UTF-8 encoded when
+	// marshaling). Since the file name isn't valid for storing in the content
+	// map, we'll replace all unknown byte sequences with a replacement
+	// character and store the entry with a derivative name. Because all other
+	// content has been recorded at this point, we can (and do) extend the
+	// derivative name until it doesn't collide with any other content name,
+	// so that this entry neither replaces nor is replaced by other content.
+	for _, contentName := range nonUTF8ContentNames {
+		escapedContentName := strings.ToValidUTF8(contentName, "�") + " (non-UTF-8)"
+		for {
+			if _, collides := contents[escapedContentName]; !collides {
+				break
+			}
+			escapedContentName += "*"
+		}
+		if ignoreMask {
+			contents[escapedContentName] = &Entry{Kind: EntryKind_Untracked}
+		} else {
+			contents[escapedContentName] = &Entry{
+				Kind:    EntryKind_Problematic,
+				Problem: "non-UTF-8 filename",
+			}
+		}
 	}
 
 	// Determine the kind of directory that we'll yield. We could do more
